@@ -8,4 +8,5 @@ INVARIANT InvGen
 INVARIANT InvRun
 INVARIANT InvRefused
 INVARIANT InvFrame
+INVARIANT InvInspect
 CHECK_DEADLOCK FALSE
